@@ -823,6 +823,9 @@ class FnTr:
                 d = ds[0]
                 if d.get('kind') != 'VarDecl':
                     self.bad('declaration kind ' + d.get('kind'))
+                # (additive) a function-local `static` keeps its value across calls: not a pure function of the arguments
+                if d.get('storageClass') == 'static' and 'const' not in qt(d).split():
+                    self.bad('static local variable %s (state kept across calls is outside the fragment)' % d.get('name'))
                 t0 = qt(d)
                 b, isref, isptr = strip_type(t0)
                 init = [c for c in d.get('inner', []) if isinstance(c, dict) and c.get('kind')]
